@@ -18,6 +18,7 @@ import (
 	"encoding/json"
 	"flag"
 	"fmt"
+	"math/big"
 	"os"
 	"runtime"
 	"sort"
@@ -28,6 +29,7 @@ import (
 	"verif/internal/ev"
 	"verif/ref/refaddr"
 	"verif/ref/refhd"
+	"verif/ref/refsecp"
 )
 
 type unit func(st *stats)
@@ -79,6 +81,11 @@ var (
 	scryptA = []int{0, 1, 10}
 )
 
+var (
+	parityT4 = []int{775, 1169, 4912, 8243, 12689, 13615, 15874, 16926}
+	parityT3 = []int{2899, 3260, 7214}
+)
+
 type seedKind struct {
 	name   string
 	pass   []byte
@@ -123,9 +130,13 @@ func mkCfg(typ int, net, atype, path string, subs, b39, scr int, sk seedKind, ke
 		PassHex: hex.EncodeToString(sk.pass), SecretSeed: sk.secret}
 	if typ == 3 {
 		c.HDPath, c.HDSubs, c.BIP39 = "", 1, 0
-	} else if p, err := refhd.ParsePath(path); err == nil && len(p) >= 2 {
+	} else if p, err := refhd.ParsePath(path); err == nil && len(p) >= 1 {
+		// keys are last+i: stay inside the index space 0..2^31-1 of the element
+		for c.KeyCnt > 1 && (p[len(p)-1]&0x7fffffff)+uint32(c.KeyCnt-1) > 0x7fffffff {
+			c.KeyCnt--
+		}
 		// sub-accounts increment the second-to-last element: stay inside 0..2^31-1
-		for c.HDSubs > 1 && (p[len(p)-2]&0x7fffffff)+uint32(c.HDSubs-1) > 0x7fffffff {
+		for len(p) >= 2 && c.HDSubs > 1 && (p[len(p)-2]&0x7fffffff)+uint32(c.HDSubs-1) > 0x7fffffff {
 			c.HDSubs--
 		}
 	}
@@ -195,6 +206,27 @@ func configs(thorough bool) []*cfg {
 				}
 			}
 		}
+	}
+	// raw-seed mode has the complete external oracle (BIP32 master of the password
+	// bytes): every seed kind x rotating paths / nets / address types
+	nraw := 4
+	if thorough {
+		nraw = len(paths)
+	}
+	for si, sk := range seedKinds {
+		for j := 0; j < nraw; j++ {
+			k := si*5 + j*7
+			add(mkCfg(4, nets[(si+j)%4], atypes[(si+2*j)%5], paths[(si*2+j*5)%len(paths)], hdsubsA[k%3], 0, 0, sk, 1+k%3, k))
+		}
+	}
+	// directed: passwords whose FIRST key has a public point with Y < 2^244 (the first
+	// eight / three of the enumerations "c14 parity <n>" / "c14 parity t3 <n>", found by
+	// search; the property is re-verified with the reference in main)
+	for i, n := range parityT4 {
+		add(mkCfg(4, nets[i%4], atypes[i%5], "m/0'", 1, 0, 0, seedKind{"parity", []byte(fmt.Sprint("c14 parity ", n)), ""}, 1, 0))
+	}
+	for i, n := range parityT3 {
+		add(mkCfg(3, nets[i%4], atypes[(i+1)%5], "", 1, 0, 0, seedKind{"parity", []byte(fmt.Sprint("c14 parity t3 ", n)), ""}, 1, 0))
 	}
 	// invalid user mnemonics must be refused (bip39=-1)
 	good := strings.Fields(string(userMnemonic(12, 0)))
@@ -267,6 +299,9 @@ func replay(file string) {
 			ev.HarnessError("%v", err)
 		}
 		replayHD(st, seed, rp.Testnet, p)
+	case "privkey":
+		k, _ := hex.DecodeString(rp.Hex)
+		evalPubFromPriv(st, "replay", k)
 	case "xkey":
 		s, _ := hex.DecodeString(rp.Hex)
 		evalXKey(st, "replay", string(s))
@@ -367,6 +402,37 @@ func main() {
 		}
 	}
 
+	// ---- directed: public key of private keys whose Y coordinate is small (Y < 2^244)
+	units = append(units, func(st *stats) {
+		lim := new(big.Int).Lsh(big.NewInt(1), 244)
+		for _, h := range smallYKeys {
+			k, _ := hex.DecodeString(h)
+			if pt := refsecp.MulG(new(big.Int).SetBytes(k)); pt.Y.Cmp(lim) >= 0 {
+				ev.HarnessError("smallYKeys entry %s does not have Y < 2^244", h)
+			}
+			evalPubFromPriv(st, "pubkey-small-y", k)
+		}
+		for _, n := range parityT4 {
+			m, err := refhd.Master([]byte(fmt.Sprint("c14 parity ", n)))
+			if err != nil {
+				ev.HarnessError("%v", err)
+			}
+			ch, err := m.Child(0x80000000)
+			if err != nil || ch.Pub.Y.Cmp(lim) >= 0 {
+				ev.HarnessError("password 'c14 parity %d': first key does not have Y < 2^244", n)
+			}
+		}
+		for i := 0; i < 40; i++ {
+			k := refaddr.Sha256d([]byte(fmt.Sprint("c14 ordinary key ", i)))
+			evalPubFromPriv(st, "pubkey-ordinary", k)
+		}
+	})
+	// directed: an HD path that reaches such a key (found by the thorough tier)
+	units = append(units, func(st *stats) {
+		p, _ := refhd.ParsePath("m/2147483647/2147483647/2147483647'/1'")
+		replayHD(st, []byte("c14 depth-4 seed 1"), false, p)
+	})
+
 	// ---- extended key strings: every single-character mutation
 	var xkeys []string
 	{
@@ -389,6 +455,17 @@ func main() {
 		units = append(units, func(st *stats) {
 			evalXKey(st, "xkey-seed", x)
 			mutants(x, func(kind, m string) { evalXKey(st, "xkey-"+kind, m) })
+			// every other value of each of the four checksum bytes
+			full, _ := refaddr.B58Decode(x)
+			for pos := len(full) - 4; pos < len(full); pos++ {
+				for v := 0; v < 256; v++ {
+					if byte(v) != full[pos] {
+						m := append([]byte{}, full...)
+						m[pos] = byte(v)
+						evalXKey(st, "xkey-checksum-bytes", refaddr.B58Encode(m))
+					}
+				}
+			}
 		})
 	}
 	// structurally invalid extended keys with a valid checksum (BIP32 test vector 5 style; recorded, judged only for length)
@@ -459,6 +536,7 @@ func main() {
 		wordCounts = []int{12, 15, 18, 21, 24}
 	}
 	for _, wc := range wordCounts {
+		wc := wc
 		ent := entropyPattern(9+wc, wc/3*4)
 		mn, err := refhd.Mnemonic(ent)
 		if err != nil {
@@ -496,6 +574,7 @@ func main() {
 		})
 	}
 
+	libUnits := len(units)
 	// ================= (ii) binary =================
 	base := ev.Scratch("c14")
 	defer os.RemoveAll(base)
@@ -533,8 +612,10 @@ func main() {
 	}
 
 	fmt.Fprintf(os.Stderr, "c14: %d units (%d wallet configurations) prepared after %v\n", len(units), len(cfgs), r.Elapsed())
-	runUnits(units, total, r, runtime.NumCPU())
-	fmt.Fprintf(os.Stderr, "c14: units done after %v\n", r.Elapsed())
+	runUnits(units[:libUnits], total, r, runtime.NumCPU())
+	fmt.Fprintf(os.Stderr, "c14: library units done after %v\n", r.Elapsed())
+	runUnits(units[libUnits:], total, r, runtime.NumCPU())
+	fmt.Fprintf(os.Stderr, "c14: binary units done after %v\n", r.Elapsed())
 	os.RemoveAll(base)
 
 	sort.SliceStable(total.finds, func(i, j int) bool {
